@@ -12,7 +12,7 @@ import z3
 from pyvc import contract as C
 from pyvc import gmodels as G
 from pyvc.contract import Contract, LoopSpec, register, schema
-from pyvc.values import (SV, TBool, TDict, TInt, TList, TNd, TObj, TOpt, TRange, TRec, TStr, TVal, ValS)
+from pyvc.values import (SV, TBool, TDict, TInt, TList, TNd, TObj, TOpt, TRange, TRec, TStr, TVal, ValS, forall_pat)
 
 DS = "gemseo.algos.design_space.DesignSpace"
 VARCLS = "gemseo.algos._variable.Variable"
@@ -42,6 +42,9 @@ def _variable_ctor(ex, args, kwargs):
     ok = z3.And(sz >= 1, variable_valid(sz, tt, lbv, ubv))
     if not st.decide(ok):
         raise PyRaise("ValueError", 0)
+    from pyvc.values import str_lit
+
+    st.assume(z3.Or(tt == str_lit("float"), tt == str_lit("integer")))  # `type: DataType` is validated by pydantic
     ex.assumed.add("pydantic model Variable: construction/assignment either raises a ValueError or yields size>=1 and converted bounds (assumed)")
     return VAR.mk(st, size=size, type=ty, lower_bound=SV(conv_bound(sz, tt, lbv), TNd), upper_bound=SV(conv_bound(sz, tt, ubv), TNd))
 
@@ -123,7 +126,17 @@ def size(t):
 
 def same_key_order(a, b):
     i = z3.Int("i!sko")
-    return z3.And(a.n == b.n, z3.ForAll([i], z3.Implies(z3.And(0 <= i, i < a.n), a.keys[i] == b.keys[i])))
+    return z3.And(a.n == b.n, forall_pat([i], z3.Implies(z3.And(0 <= i, i < a.n), a.keys[i] == b.keys[i]), a.keys[i], b.keys[i]))
+
+
+def _adjacent(v, rng):
+    from pyvc.values import _pattern_ok
+
+    i, j = z3.Int("i!wf"), z3.Int("j!wf")
+    body = z3.Implies(z3.And(0 <= i, j == i + 1, j < v.n), start(rng(j)) == stop(rng(i)))
+    if _pattern_ok(v.keys[i]) and z3.is_app(v.keys[i]) and v.keys[i].decl().kind() == z3.Z3_OP_SELECT:
+        return z3.ForAll([i, j], body, patterns=[z3.MultiPattern(v.keys[i], v.keys[j])])
+    return z3.ForAll([i, j], body)
 
 
 def wf(s):
@@ -135,9 +148,12 @@ def wf(s):
     return [
         ("same-order:normalize", same_key_order(v, n)),
         ("same-order:indices", same_key_order(v, ix)),
-        ("sizes", z3.ForAll([i], z3.Implies(z3.And(0 <= i, i < v.n), z3.And(size(v.vals[v.keys[i]]) >= 1, stop(rng(i)) - start(rng(i)) == size(v.vals[v.keys[i]]))))),
+        ("sizes", forall_pat([i], z3.Implies(z3.And(0 <= i, i < v.n), z3.And(size(v.vals[v.keys[i]]) >= 1, stop(rng(i)) - start(rng(i)) == size(v.vals[v.keys[i]]))),
+                            v.keys[i])),
         ("first-at-zero", z3.Implies(v.n > 0, start(rng(0)) == 0)),
-        ("adjacent", z3.ForAll([i], z3.Implies(z3.And(0 <= i, i < v.n - 1), start(rng(i + 1)) == stop(rng(i))))),
+        # two bound variables and a multi-pattern: instantiated only for pairs of positions that already occur, so that no
+        # successor terms keys[i+1], keys[i+2], ... are generated (matching loop)
+        ("adjacent", _adjacent(v, rng)),
         ("dimension", s.dimension == z3.If(v.n == 0, 0, stop(rng(v.n - 1)))),
         ("values-of-known-variables", z3.ForAll([k], z3.Implies(cv.has(k), v.has(k)))),
     ]
@@ -433,14 +449,15 @@ class SetCurrentVariable(Contract):
     raises = {"ValueError": lambda c: z3.Not(V(c.old.self).has(c.old.name))}
 
     def requires(self, c):
-        return wf(c.old.self)
+        # (only what the function needs: it is also called while the index ranges are being rebuilt)
+        return [wf(c.old.self)[-1]]
 
     def ensures(self, c):
         s0, s1 = c.old.self, c.new.self
         cv0, cv1 = CV(s0), CV(s1)
         k = z3.Const("k!scv", TStr.sort())
         nm = c.old.name
-        return wf(s1) + [
+        return [wf(s1)[-1]] + [
             ("value-set", z3.And(cv1.has(nm), cv1.vals[nm] == CUR.v.dt.some(c.old.current_value))),
             ("others-kept", z3.ForAll([k], z3.Implies(k != nm, z3.And(cv1.has(k) == cv0.has(k), z3.Implies(cv0.has(k), cv1.vals[k] == cv0.vals[k]))))),
             ("dependent-data-dropped-when-complete", z3.Implies(s1._DesignSpace__has_current_value, s1._DesignSpace__norm_current_value.n == 0)),
@@ -490,3 +507,160 @@ class SetLowerBound(_SetBound):
 class SetUpperBound(_SetBound):
     targets = (DS + ".set_upper_bound",)
     which = "upper_bound"
+
+
+# ---------------------------------------------------------------------------- add_variable
+def _types_to_dtypes(ex):
+    """DesignSpace.VARIABLE_TYPES_TO_DTYPES: a mapping defined for both variable types (values: numpy scalar types, opaque)."""
+    st = ex.st
+    d = TDict(TStr, TVal).fresh(st, "TYPE_MAP")
+    o = st.heap[d.id]
+    from pyvc.values import str_lit
+
+    st.assume(z3.And(o.member[str_lit("float")], o.member[str_lit("integer")]))
+    return d
+
+
+G.CLASS_CONSTANTS[(DS, "VARIABLE_TYPES_TO_DTYPES")] = _types_to_dtypes
+
+
+@register
+class CheckValue(Contract):
+    targets = (DS + "._check_value",)
+    prop = ("C02",)
+    params = {"value": TNd, "name": TStr}
+    returns = TBool
+    raises = {"ValueError": None}
+    trusted = True
+    description = "assumed: _check_value only inspects the value (numpy.vectorize based checks): it raises ValueError or returns, and changes nothing"
+
+
+@register
+class CheckCurrentValue(Contract):
+    targets = (DS + "._check_current_value",)
+    prop = ("C02",)
+    params = {"name": TStr}
+    raises = {"ValueError": None}
+    trusted = True
+    description = "assumed: _check_current_value compares the current value with the bounds: it raises ValueError or returns, and changes nothing"
+
+
+@register
+class AddVariable(Contract):
+    """A new variable is appended last: index range [dimension, dimension + size), every other variable untouched."""
+
+    targets = (DS + ".add_variable",)
+    prop = ("C02",)
+    params = {"name": TStr, "size": TInt, "type_": TStr, "lower_bound": TNd, "upper_bound": TNd, "value": TOpt(TNd)}
+    modifies = ("self",)
+    raises = {"ValueError": None}
+
+    def requires(self, c):
+        return wf(c.old.self)
+
+    def axioms(self, c):
+        return derived_wf(c.old.self)
+
+    def ensures(self, c):
+        s0, s1 = c.old.self, c.new.self
+        nm, sz = c.old.name, c.old.size
+        v0, v1 = V(s0), V(s1)
+        cv0, cv1 = CV(s0), CV(s1)
+        k = z3.Const("k!av", TStr.sort())
+        has_value = z3.Not(c.old.value.is_none())
+        return wf(s1) + [
+            ("was-a-new-name", z3.Not(v0.has(nm))),
+            ("variables-appended", appended_key(v1, v0, nm)),
+            ("normalize-appended", appended_key(N(s1), N(s0), nm)),
+            ("indices-appended", appended_key(I(s1), I(s0), nm)),
+            ("index-range", z3.And(start(I(s1).vals[nm]) == s0.dimension, stop(I(s1).vals[nm]) == s0.dimension + sz)),
+            ("size-and-type", z3.And(size(v1.vals[nm]) == sz, VAR.accessor("type")(v1.vals[nm]) == c.old.type_)),
+            ("dimension", s1.dimension == s0.dimension + sz),
+            ("other-values-kept", z3.ForAll([k], z3.Implies(k != nm, z3.And(cv1.has(k) == cv0.has(k), z3.Implies(cv0.has(k), cv1.vals[k] == cv0.vals[k]))))),
+            ("value-set-iff-given", cv1.has(nm) == has_value),
+        ] + caches_invalidated(s0, s1)
+
+
+# ---------------------------------------------------------------------------- filter_dimensions
+@register
+class GetCurrentValue(Contract):
+    targets = (DS + ".get_current_value",)
+    prop = ("C02",)
+    params = {"variable_names": TList(TStr)}
+    returns = TNd
+    modifies = ("self",)
+    raises_exact = False
+    trusted = True
+
+    @property
+    def raises(self):
+        def some_name_without_value(c):
+            i = z3.Int("i!gcv")
+            L, cv = c.old.variable_names, CV(c.old.self)
+            return z3.Exists([i], z3.And(0 <= i, i < L.n, z3.Not(cv.has(L.elems[i]))))
+
+        return {"ValueError": None, "KeyError": some_name_without_value}
+
+    description = ("assumed (frame only): get_current_value may fill the cached current-value arrays and changes nothing else; "
+                   "the returned array is an opaque function of the current values (conversions dict<->array are not under contract)")
+
+    def ensures(self, c):
+        return _only_field_changed(c.old.self, c.new.self)
+
+
+def _filter_inv(c, k):
+    """Index ranges of the first k variables are updated: `name` shrinks, the following ones shift."""
+    # relative to the state at loop entry (the dictionary object iterated over), not to the function entry
+    s0, s = c.pre_locals["self"], c.new.self
+    nm = c.old.name
+    ix0, ix = I(s0), I(s)
+    p = ix0.pos[nm]
+    nr = c.locals["n_removed"]
+    x = z3.Const("k!fi", TStr.sort())
+    r0 = lambda t: ix0.vals[t]  # noqa: E731
+    done = lambda t: z3.And(ix0.has(t), ix0.pos[t] < k)  # noqa: E731
+    shrunk = lambda t: TRange.dt.mk(start(r0(t)), stop(r0(t)) - nr)  # noqa: E731
+    shifted = lambda t: TRange.dt.mk(start(r0(t)) - nr, stop(r0(t)) - nr)  # noqa: E731
+    pat = [ix.vals[x], ix0.pos[x]]  # alternative triggers
+    return [
+        ("reached", c.locals["name_reached"] == (p < k)),
+        ("indices:not-yet-visited", z3.ForAll([x], z3.Implies(z3.And(ix0.has(x), ix0.pos[x] >= k), ix.vals[x] == r0(x)), patterns=pat)),
+        ("indices:before-name", z3.ForAll([x], z3.Implies(z3.And(done(x), ix0.pos[x] < p), ix.vals[x] == r0(x)), patterns=pat)),
+        ("indices:name-shrunk", z3.Implies(p < k, ix.vals[nm] == shrunk(nm))),
+        ("indices:after-name-shifted", z3.ForAll([x], z3.Implies(z3.And(done(x), ix0.pos[x] > p), ix.vals[x] == shifted(x)), patterns=pat)),
+    ]
+
+
+@register
+class FilterDimensions(Contract):
+    """Only the listed components of `name` are kept: its size becomes len(dimensions), the following variables shift, order kept."""
+
+    targets = (DS + ".filter_dimensions",)
+    prop = ("C02",)
+    params = {"name": TStr, "dimensions": TList(TInt)}
+    modifies = ("self",)
+    raises = {"ValueError": None}
+    loops = {0: LoopSpec(anchor="self.__names_to_indices.items()", modifies=("self._DesignSpace__names_to_indices#vals",), inv=_filter_inv,
+                         local_types={"_name": TStr, "indices": TRange})}
+
+    def requires(self, c):
+        return wf(c.old.self)
+
+    def axioms(self, c):
+        return derived_wf(c.old.self)
+
+    def ensures(self, c):
+        s0, s1 = c.old.self, c.new.self
+        nm = c.old.name
+        v0, v1 = V(s0), V(s1)
+        k = z3.Const("k!fd", TStr.sort())
+        n_kept = c.old.dimensions.n
+        return wf(s1) + [
+            ("known-variable", v0.has(nm)),
+            ("variables-order", same_key_order(v1, v0)),
+            ("other-variables-kept", z3.ForAll([k], z3.And(v1.has(k) == v0.has(k), z3.Implies(z3.And(v0.has(k), k != nm), v1.vals[k] == v0.vals[k])))),
+            ("new-size", size(v1.vals[nm]) == n_kept),
+            ("same-type", VAR.accessor("type")(v1.vals[nm]) == VAR.accessor("type")(v0.vals[nm])),
+            ("dimension", s1.dimension == s0.dimension - (size(v0.vals[nm]) - n_kept)),
+            ("normalize-kept", unchanged_dict(N(s1), N(s0))),
+        ] + caches_invalidated(s0, s1)
